@@ -624,8 +624,7 @@ def run_overlap(ctl: explorer.Ctl, cfg: Dict[str, Any]) -> Dict[str, Any]:
         raises = OV_BEH[bh] != "returns"
         pos_s, pos_r = order.index(f"start{i}"), order.index(f"release{i}")
         overlapped = any(pos_s < order.index(f"{a}{j}") < pos_r for j in range(k) if j != i for a in ("start", "release"))
-        ctx = {"message": OV_MSG[mk], "handler": OV_TARGET[tg], "own_handler": OV_BEH[bh],
-               "others_ran_while_suspended": overlapped}
+        ctx = {"message": OV_MSG[mk], "handler": OV_TARGET[tg], "others_ran_while_suspended": overlapped}
 
         def bad(cls, msg, **extra):
             viol.append({"sig": {"class": cls, **ctx, **extra},
@@ -666,11 +665,12 @@ def run_overlap(ctl: explorer.Ctl, cfg: Dict[str, Any]) -> Dict[str, Any]:
         toks.append(tok)
         if not strict_eq(d.get("id"), own_id):
             other = any(strict_eq(d.get("id"), OV_IDS[calls[j][0]]) for j in range(k) if j != i)
-            bad("wrong-response-id", f"response carries id {d.get('id')!r}, the request's id is {own_id!r}",
+            bad("wrong-response-id", f"own handler {OV_BEH[bh]}: response carries id {d.get('id')!r}, the request's id is {own_id!r}",
                 carries="id-of-another-in-flight-call" if other else "other")
         want = "E-32603" if raises else "R"
         if tok != want:
-            bad("wrong-outcome", f"own handler {OV_BEH[bh]}: expected {want}, got {tok}: {d!r}", got=tok)
+            bad("wrong-outcome", f"own handler {OV_BEH[bh]}: expected {want}, got {tok}: {d!r}", got=tok,
+                own_handler=OV_BEH[bh])
     if errors:
         viol.append({"sig": {"class": "loop-error"}, "msg": f"{errors[:2]}"})
     return {"outcome": "/".join(toks), "order": order, "finished": finished_order, "violations": viol,
